@@ -469,7 +469,8 @@ C10_status(h1, step) ==
 C10_output(d, prev, step) ==
   (step.call.op = "render" /\ prev.wf = "canceled") =>
      /\ step.obs.wf = "canceled"
-     /\ (Len(d.output) > 0 /\ NewErrs(prev, step.obs, "expr") = {}) => step.obs.hasout
+     \* (an output error that repeats an already logged one adds no new entry)
+     /\ (Len(d.output) > 0 /\ ~HasErr(step.obs, "expr")) => step.obs.hasout
 
 (* C11: run-time expression errors are contained, recorded and fail the workflow. *)
 C11_no_escape(step) == step.ret = "ok" \/ step.ret \in Rejections
